@@ -35,7 +35,7 @@ KWO = ['k1', 'k2']
 VARARGS, VARKW = 'rest', 'kw'
 EXTRA = ['e', 'f']
 NAMES = POS + KWO + EXTRA
-KINDS = ['functor', 'symbolize_fn', 'symbolize_cls', 'wrap_cls']
+KINDS = ['functor', 'symbolize_fn', 'symbolize_cls', 'wrap_cls', 'object_cls']
 MISSING = pg.MISSING_VALUE
 
 _CACHE = {}
@@ -111,6 +111,40 @@ def materialise(sig, kind=''):
 _WRAPPED = {}
 
 
+def _object_class(npos, ndef, kwo, var, varkw, name):
+  """A pg.Object subclass whose generated __init__ has the signature (fields + init_arg_list)."""
+  T = pg.typing
+  fields, init_args = [], []
+  for i in range(npos):
+    n = POS[i]
+    fields.append((n, T.Any(default=_default(n)) if i >= npos - ndef else T.Any()))
+    init_args.append(n)
+  if var:
+    fields.append((VARARGS, T.List(T.Any(), default=[])))
+    init_args.append('*' + VARARGS)
+  for i, has_default in enumerate(kwo):
+    n = KWO[i]
+    fields.append((n, T.Any(default=_default(n)) if has_default else T.Any()))
+  if varkw:
+    fields.append((T.StrKey(), T.Any()))
+  cls = type('O_' + name[3:], (pg.Object,), {'__module__': 'pgverif.props.c18'})
+  return pg.members(fields, init_arg_list=init_args)(cls)
+
+
+def _state_of(obj, kind, model):
+  """What the instance holds, in the shape the reference callable returns."""
+  if kind != 'object_cls':
+    return plain(obj.t)
+  args = {k: plain(v) for k, v in obj.sym_init_args.sym_items()}
+  out = [args.get(n, MISSING) for n in model.pos]
+  if model.var:
+    out.append(tuple(args.get(VARARGS, [])))
+  out.extend(args.get(n, MISSING) for n in model.kwonly)
+  if model.varkw:
+    out.append(tuple(sorted((k, v) for k, v in args.items() if k not in model.named and k != VARARGS)))
+  return tuple(out)
+
+
 def wrapped(sig, kind):
   npos, ndef, kwo, var, varkw, ann = _check_sig(sig)
   key = (npos, ndef, tuple(kwo), var, varkw, ann, kind)
@@ -124,6 +158,8 @@ def wrapped(sig, kind):
       w = pg.symbolize(cls)
     elif kind == 'wrap_cls':
       w = pg.wrap(cls)
+    elif kind == 'object_cls':
+      w = _object_class(npos, ndef, kwo, var, varkw, fn.__name__)
     else:
       raise core.InvalidCase(kind)
     _WRAPPED[key] = w
@@ -342,6 +378,10 @@ def execute(case):
   # the generated signature
   want_params = _sig_params(fn, skip_self=False)
   got = _run(lambda: _sig_params(W.__init__, skip_self=True))
+  if kind == 'object_cls' and got[0] == 'ok':
+    # the generated __init__ names its catch-all parameter itself
+    want_params = [(('**', k, d) if k == 'VAR_KEYWORD' else (n, k, d)) for n, k, d in want_params]
+    got = ('ok', [(('**', k, d) if k == 'VAR_KEYWORD' else (n, k, d)) for n, k, d in got[1]])
   if got[0] != 'ok' or got[1] != want_params:
     return res.violate('inspect.signature(%s.__init__) gives %r, the original has %r; source:\n%s' % (
         kind, got[1:], want_params, src), law='signature', **sigd)
@@ -373,8 +413,8 @@ def execute(case):
       return res.violate('%s: the original accepts it, the symbolic class raises %s (%s); source:\n%s' % (
           what, got[1], got[2], src), law='ctor-rejected', **sigd)
     obj = got[1]
-    if plain(obj.t) != rc[1]:
-      return res.violate('%s: the original received %r, the symbolic class %r; source:\n%s' % (what, rc[1], plain(obj.t), src),
+    if _state_of(obj, kind, model) != rc[1]:
+      return res.violate('%s: the original received %r, the symbolic class %r; source:\n%s' % (what, rc[1], _state_of(obj, kind, model), src),
                          law='ctor-result', **sigd)
     stages += 1
   else:
@@ -549,7 +589,7 @@ def execute(case):
     rc = model.reference_call(ref_callable, model.spec, model.rest)
     if rc[0] != 'ok':
       raise core.InvalidCase(case)    # unreachable: late steps on classes are validated by re-running __init__
-    gotv = _run(lambda: plain(target.t))
+    gotv = _run(lambda: _state_of(target, kind, model))
     if gotv[0] != 'ok' or gotv[1] != rc[1]:
       return res.violate('after %s + %r (%s) the wrapped instance holds %r, the original class called with the effective '
                          'arguments holds %r; source:\n%s' % (what, case.get('late'), after, gotv[1:], rc[1], src),
